@@ -208,6 +208,9 @@ func renderType(t map[string]any) string {
 			body.WriteString(" enum " + e + ";")
 		}
 	}
+	if strings.HasPrefix(base, "identityref:") {
+		body.WriteString(" base " + strings.TrimPrefix(base, "identityref:") + ";")
+	}
 	for _, l := range carr(t, "levels") {
 		lv := l.(map[string]any)
 		if rs, ok := lv["restr"].([]any); ok {
